@@ -98,3 +98,35 @@ def test_subject(test: ast.AST) -> Optional[str]:
     if isinstance(test, ast.Compare) and isinstance(test.left, ast.Name):
         return test.left.id
     return None
+
+
+def inline_aliases(stmts, root: str):
+    """A deep copy of `stmts` in which a local bound once to an attribute chain rooted at `root` (pulse = operation_proto.couplerpulsegate)
+    is replaced by that chain wherever it is read - so that attr_paths sees the same paths whether or not a maintainer named the sub-message."""
+    import copy
+    stmts = copy.deepcopy(list(stmts))
+    mod = ast.Module(body=stmts, type_ignores=[])
+    stores = {}
+    for n in ast.walk(mod):
+        if isinstance(n, ast.Name) and isinstance(n.ctx, ast.Store):
+            stores[n.id] = stores.get(n.id, 0) + 1
+    alias = {}
+    for st in ast.walk(mod):
+        if isinstance(st, ast.Assign) and len(st.targets) == 1 and isinstance(st.targets[0], ast.Name) and stores.get(st.targets[0].id) == 1:
+            v = st.value
+            cur = v
+            ok = isinstance(cur, ast.Attribute)
+            while isinstance(cur, ast.Attribute):
+                cur = cur.value
+            if ok and isinstance(cur, ast.Name) and (cur.id == root or cur.id in alias):
+                alias[st.targets[0].id] = v
+
+    class T(ast.NodeTransformer):
+        def visit_Name(self, node):
+            if isinstance(node.ctx, ast.Load) and node.id in alias:
+                return self.visit(copy.deepcopy(alias[node.id]))
+            return node
+    out = [T().visit(s) for s in stmts]
+    for s in out:
+        ast.fix_missing_locations(s)
+    return out
